@@ -46,6 +46,7 @@ class FakeSock:
         self.clock = None           # FakeClock of a clk=1 case: told about every socket event
         self.w_how = []             # send script: how each 'W' was used up, in order: 'S' the socket raised
                                     # socket.timeout for it, 'C' a deadline check of the code fired
+        self.sends = []             # every sock.send call: (bytes offered, bytes on the wire before it)
 
     def _io_done(self, script):
         if self.clock is not None:
@@ -92,6 +93,7 @@ class FakeSock:
 
     def send(self, data, flags=0):
         data = bytes(data)
+        self.sends.append((len(data), len(self.wire)))
         s = self.sscript
         if not s:
             self.wire += data
@@ -119,6 +121,19 @@ class FakeSock:
 
     def undelivered(self):
         return b''.join(e for e in self.rscript if not is_to(e))
+
+    def faults_left(self):
+        return sum(1 for e in self.rscript if is_to(e))
+
+    def owed(self):
+        """(undelivered bytes, faults still in the recv script) in one pass"""
+        parts, nf = [], 0
+        for e in self.rscript:
+            if type(e) is bytes:
+                parts.append(e)
+            else:
+                nf += 1
+        return b''.join(parts), nf
 
 
 class FakeClock:
@@ -279,7 +294,14 @@ class C12(Property):
             'kind (socket.timeout T, deadline expiry W, BlockingIOError E) in every gap x 7 send scripts x 3 interleaved '
             'families, plus random interleavings of the rx/tx random families; recv/send/sendall with a flags argument '
             '(0 and non-zero); nonblocking mode (timeout=0.0) for fault cases; return values that are not immutable '
-            'bytes are re-read at the end of the case. The scripted clock jumps as a function of socket events only.')
+            'bytes are re-read at the end of the case. The scripted clock jumps as a function of socket events only. '
+            'Round 3c: what the statement leaves free reaches the model as an observation instead of being predicted by '
+            'it - every recv attempt (returned value / fault class, getrecvbuffer(), bytes and faults the network still '
+            'holds) is accepted or rejected by the Lean predicate acceptRecv (the recv clause of the statement) and the '
+            'model continues from the observed state; after every attempt of a framing call the model, which computed '
+            'the attempt, is re-seated on the observed split when it is a split of the same bytes owed; the sizes every '
+            'sock.send was given are handed to the model (offers) when some call offered less than the whole buffer; '
+            'nsr compares rbuf ++ undelivered after each read_ns.')
     ASSUMPTIONS = [
         'the wrapped socket returns b"" from recv only at end of stream, never more than the requested bytes, and '
         'send returns how many bytes it took (scripted FakeSock in harness/bv/props/c12.py)',
@@ -295,6 +317,11 @@ class C12(Property):
         'read_ns size prefixes go through int(): the model of int(bytes) (parsePyInt) is compared with this '
         'interpreter\'s int() on every byte string of length <= 4 over a 12-letter alphabet on every run',
         'single-threaded use (the RLocks are not exercised)',
+        'left free by the statement and therefore observed, not predicted: which non-empty prefix recv() returns, how '
+        'any receive-side call splits the bytes still owed between rbuf and the socket (how much it asks the socket '
+        'for), and how many bytes of the send buffer one sock.send call is given; the observation is trusted only as '
+        'far as the scripted socket reports it (bytes / faults it still holds, len(data) of every send) and '
+        'getrecvbuffer() / getsendbuffer() return the buffers',
     ]
     CORRESPONDENCE_NAME = 'C12.Driver (BufferedSocket/NetstringSocket model) vs boltons.socketutils over a scripted socket'
 
@@ -1048,28 +1075,29 @@ class C12(Property):
         return cls._rcfg(case)[-1][1]
 
     @staticmethod
-    def _rx_tok(op):
+    def _rx_tok(op, obs=()):
         if op[0] in ('r', 'p', 's'):
-            return '%s%d' % (op[0], op[1])
+            return '@'.join(['%s%d' % (op[0], op[1])] + list(obs))
         if op[0] == 'u':
-            return 'u%d:%s:%s' % (op[1], op[2], op[3])
+            return '@'.join(['u%d:%s:%s' % (op[1], op[2], op[3])] + list(obs))
         if op[0] == 'c':
-            return 'c%s' % op[1]
+            return '@'.join(['c%s' % op[1]] + list(obs))
         if op[0] == 'm':
             return 'm%d' % op[1]
         if op[0] == 'rf':
-            return 'F%d:%d' % (op[1], op[2])        # dx only
+            return '@'.join(['F%d:%d' % (op[1], op[2])] + list(obs)[:1])        # dx only
         raise InfraError('bad rx op %r' % (op,))
 
     @staticmethod
-    def _tx_tok(op):
+    def _tx_tok(op, offers=None):
+        tail = '@' + '.'.join(map(str, offers)) if offers else ''
         if op[0] in ('s', 'sa'):
-            return 's' + op[1]
+            return 's' + op[1] + tail
         if op[0] == 'b':
             return 'b' + op[1]
         if op[0] in ('sf', 'saf'):
-            return 'F%s:%d' % (op[1], op[2])        # dx only
-        return 'f'
+            return 'F%s:%d' % (op[1], op[2]) + (tail if op[2] == 0 else '')       # dx only
+        return 'f' + tail
 
     # ---- what the statement leaves free, resolved by observation before the model is asked
     # (1) WHERE on the send side the code compares the clock with its deadline (after every sock.send? also after
@@ -1082,8 +1110,9 @@ class C12(Property):
     #     reaches the model as the plain call.
     def _hint(self, case):
         cache = self.__dict__.setdefault('_hints', {})
-        if len(cache) > 4000:
-            cache.clear()
+        if len(cache) > 8000:
+            for k in list(cache)[:4000]:
+                del cache[k]
         ent = cache.get(id(case))
         if ent is None or ent[0] is not case:
             ent = (case, {})
@@ -1092,10 +1121,45 @@ class C12(Property):
 
     def _hints_for(self, case):
         h = self._hint(case)
-        if 'w_how' not in h:
+        if 'ran' not in h:
             self.impl(case)         # line() asked before impl() ran on this object (replay, shrinking)
             h = self._hint(case)
         return h
+
+    # (3) round 3c - WHICH prefix recv() returns and how the rest is split between rbuf and the socket: every recv
+    #     attempt reaches the model as an observation (result, getrecvbuffer(), bytes and faults the network still
+    #     holds) which the model accepts or rejects against the statement's recv clause, continuing from the
+    #     observed state.
+    # (4) how many bytes each sock.send of a send()/flush() call is given: reaches the model as `offers` when some
+    #     sock.send was given less than everything not yet on the wire.
+    @staticmethod
+    def _obs_tok(rec):
+        r = rec['r']
+        if rec.get('rbuf') == 'nonbytes':
+            return 'X~-~0~0'
+        if r == 'ok' and rec['op_kind'] in ('r', 'rf'):
+            if rec['v'].startswith('nonbytes'):
+                return 'X~-~0~0'
+            res = 'v' + rec['v']
+        elif r == 'oserror':
+            res = 'E'
+        elif r == 'timeout' or rec['op_kind'] not in ('r', 'rf'):
+            res = 'T'       # (for a framing call only the split is read)
+        else:
+            return 'X~-~0~0'
+        return '%s~%s~%d~%d' % (res, rec['rbuf'], rec['ul'], rec['fl'])
+
+    @staticmethod
+    def _offers(fs, n0, total):
+        """the offers of the sock.send calls made since index n0, or None when every one of them was given
+        everything that was not yet on the wire (total = bytes on the wire + bytes buffered after the public call,
+        which a send-side call does not change once the data is appended)"""
+        if len(fs.sends) == n0:
+            return None
+        calls = fs.sends[n0:]
+        if all(o + w == total for o, w in calls):
+            return None
+        return [o for o, _ in calls]
 
     def _sscript_tok_observed(self, case, key):
         script = case[key]
@@ -1118,30 +1182,42 @@ class C12(Property):
         if k == 'rx':
             if case['rs'] < 1:
                 return None
+            robs = self._hints_for(case).get('robs', {})
             return ' '.join(['rx', str(case['rs']), str(case['ms']), str(case['retry']),
-                             self._script_tok(case['script'])] + [self._rx_tok(op) for op in case['ops']])
+                             self._script_tok(case['script'])] +
+                            [self._rx_tok(op, robs.get(i, ())) for i, op in enumerate(case['ops'])])
         if k == 'tx':
+            offs = self._hints_for(case).get('offers', {})
             return ' '.join(['tx', self._sscript_tok_observed(case, 'script')] +
-                            [self._tx_tok(op) for op in case['ops']])
+                            [self._tx_tok(op, offs.get(i)) for i, op in enumerate(case['ops'])])
         if k == 'dx':
             if case['rs'] < 1:
                 return None
-            flagged = any(op[0] in ('rf', 'sf', 'saf') and op[2] != 0 for _, op in case['ops'])
-            refused = set(self._hints_for(case).get('refused', [])) if flagged else set()
+            hints = self._hints_for(case)
+            refused = set(hints.get('refused', []))
+            robs, offs = hints.get('robs', {}), hints.get('offers', {})
 
             def tok(i, side, op):
                 if op[0] in ('rf', 'sf', 'saf') and op[2] != 0 and i not in refused:
                     op = ['r', op[1]] if op[0] == 'rf' else ['s', op[1]]       # flags taken: the plain call
-                return side + (self._rx_tok(op) if side == 'R' else self._tx_tok(op))
+                if op[0] == 'rf' and op[2] != 0:
+                    return side + self._rx_tok(op)                              # refused: no observation needed
+                return side + (self._rx_tok(op, robs.get(i, ())) if side == 'R' else self._tx_tok(op, offs.get(i)))
             return ' '.join(['dx', str(case['rs']), str(case['ms']), self._script_tok(case['rscript']),
                              self._sscript_tok_observed(case, 'sscript')] +
                             [tok(i, side, op) for i, (side, op) in enumerate(case['ops'])])
         if k == 'ns':
+            woffs = self._hints_for(case).get('woffs', [])
+
+            def ptok(i, p):
+                offs = woffs[i] if i < len(woffs) else []
+                return '@'.join([p] + ['.'.join(map(str, o)) if o else '_' for o in offs])
             return ' '.join(['ns', str(case['ms']), self._sscript_tok(case['wscript']),
                              ','.join(map(str, case['cuts'])) or '-', str(case['nreads']), self._rcfg_tok(case)]
-                            + case['payloads'])
+                            + [ptok(i, p) for i, p in enumerate(case['payloads'])])
         if k == 'nsr':
-            return ' '.join(['nsr', self._rcfg_tok(case), self._script_tok(case['script']), str(case['nreads'])])
+            return ' '.join(['nsr', self._rcfg_tok(case), self._script_tok(case['script']), str(case['nreads'])] +
+                            list(self._hints_for(case).get('splits', ())))
         if k == 'duo':
             la, lb = self.line(case['a']), self.line(case['b'])
             if la is None or lb is None:
@@ -1263,6 +1339,9 @@ class C12(Property):
             fs.clock = clock
         bs = BufferedSocket(fs, timeout=self._tmo(case), maxsize=case['ms'], recvsize=case['rs'])
         tries = 1 + (sum(1 for e in case['script'] if is_to(e)) if case['retry'] else 0)
+        h = self._hint(case)
+        h['ran'] = True
+        robs = h['robs'] = {}
         for i, op in enumerate(case['ops']):
             yield
             for _ in range(tries):
@@ -1270,7 +1349,11 @@ class C12(Property):
                 self._do_rx(bs, op, rec, clock, clk, case['ms'])
                 rb = bs.getrecvbuffer()
                 rec['rbuf'] = hx(bytes(rb)) if isinstance(rb, (bytes, bytearray)) else 'nonbytes'
-                rec['und'] = hx(fs.undelivered())
+                und, rec['fl'] = fs.owed()
+                rec['und'], rec['ul'] = hx(und), len(und)
+                rec['op_kind'] = op[0]
+                if op[0] != 'm':
+                    robs.setdefault(i, []).append(self._obs_tok(rec))
                 out.append(rec)
                 if rec['r'] != 'timeout' and rec['r'] != 'oserror':
                     break
@@ -1283,15 +1366,24 @@ class C12(Property):
         if clk:
             fs.clock = clock
         bs = BufferedSocket(fs, timeout=self._tmo(case))
+        h = self._hint(case)
+        h['ran'] = True
+        h['w_how'] = []
+        offs = h['offers'] = {}
         for i, op in enumerate(case['ops']):
             yield
             rec = {'op': i}
+            n0 = len(fs.sends)
             self._do_tx(bs, op, rec, clock, clk, fs)
-            rec['sbuf'] = hx(bytes(bs.getsendbuffer()))
+            sb = bytes(bs.getsendbuffer())
+            rec['sbuf'] = hx(sb)
             rec['wire'] = hx(fs.wire)
             rec['left'] = sum(1 for e in fs.sscript if is_to(e))
             out.append(rec)
-            self._hint(case)['w_how'] = list(fs.w_how)
+            h['w_how'] = list(fs.w_how)
+            o = self._offers(fs, n0, len(sb) + len(fs.wire))
+            if o:
+                offs[i] = o
 
     def run_duo(self, case):
         """two sockets, calls interleaved as `order` says (then whatever is left of each)"""
@@ -1330,22 +1422,35 @@ class C12(Property):
             fs.clock = clock
         bs = BufferedSocket(fs, timeout=self._tmo(case), maxsize=case['ms'], recvsize=case['rs'])
         out = []
+        robs, offs = {}, {}
         for i, (side, op) in enumerate(case['ops']):
             rec = {'op': i}
+            n0 = len(fs.sends)
             if side == 'R':
                 self._do_rx(bs, op, rec, clock, clk, case['ms'])
             else:
                 self._do_tx(bs, op, rec, clock, clk, fs)
             rb = bs.getrecvbuffer()
             rec['rbuf'] = hx(bytes(rb)) if isinstance(rb, (bytes, bytearray)) else 'nonbytes'
-            rec['und'] = hx(fs.undelivered())
-            rec['sbuf'] = hx(bytes(bs.getsendbuffer()))
+            und, rec['fl'] = fs.owed()
+            rec['und'], rec['ul'] = hx(und), len(und)
+            sb = bytes(bs.getsendbuffer())
+            rec['sbuf'] = hx(sb)
             rec['wire'] = hx(fs.wire)
             rec['left'] = sum(1 for e in fs.sscript if is_to(e))
             out.append(rec)
+            rec['op_kind'] = op[0]
+            if side == 'R' and op[0] != 'm':
+                robs[i] = [self._obs_tok(rec)]
+            if side == 'S':
+                o = self._offers(fs, n0, len(sb) + len(fs.wire))
+                if o:
+                    offs[i] = o
         h = self._hint(case)
+        h['ran'] = True
         h['w_how'] = list(fs.w_how)
         h['refused'] = [r['op'] for r in out if r['r'] == 'valueerror']
+        h['robs'], h['offers'] = robs, offs
         return out
 
     @classmethod
@@ -1371,25 +1476,42 @@ class C12(Property):
         w.bsock.settimeout(None)
         bound = 1 + sum(1 for e in case['wscript'] if e == 'T')
         wres = []
+        woffs = []          # per payload: the offers of the write_ns call, then of each flush after it ('_' = whole)
+
+        def offers(n0):
+            if len(fw.sends) == n0:
+                return None
+            return self._offers(fw, n0, len(bytes(w.bsock.getsendbuffer())) + len(fw.wire))
         for p in case['payloads']:
+            offs = []
+            n0 = len(fw.sends)
             try:
                 w.write_ns(unhx(p))
                 wres.append('ok')
+                offs.append(offers(n0))
             except CaseTimeout:
                 raise
             except Exception as e:
+                offs.append(offers(n0))
                 r = EXC.get(exc_name(e), 'exc:' + exc_name(e))
                 if r == 'timeout':
                     for _ in range(bound):
+                        n0 = len(fw.sends)
                         try:
                             w.bsock.flush()
                             r += '+flushed'
+                            offs.append(offers(n0))
                             break
                         except CaseTimeout:
                             raise
                         except Exception as e2:
+                            offs.append(offers(n0))
                             r += '+' + EXC.get(exc_name(e2), 'exc:' + exc_name(e2))
                 wres.append(r)
+            woffs.append(offs if any(offs) else [])
+        h = self._hint(case)
+        h['ran'] = True
+        h['woffs'] = woffs
         wire = fw.wire
         fr = FakeSock(cut(wire, case['cuts']))
         rd, kw = self._mk_ns(fr, case)
@@ -1419,8 +1541,14 @@ class C12(Property):
             except Exception as e:
                 rec['r'] = EXC.get(exc_name(e), 'exc:' + exc_name(e))
             rec['rbuf'] = hx(bytes(rd.bsock.getrecvbuffer()))
-            rec['und'] = hx(fr.undelivered())
+            und, rec['fl'] = fr.owed()
+            rec['und'], rec['ul'] = hx(und), len(und)
             out.append(rec)
+        h = self._hint(case)
+        h['ran'] = True
+        # the split left behind by read_ns (its final recv(1) may or may not over-read) is free: the model is
+        # re-seated on it after every read, and what is compared is rbuf ++ undelivered
+        h['splits'] = ['%s~%d~%d' % (r['rbuf'], r['ul'], r['fl']) for r in out]
         return out
 
     def impl(self, case):
@@ -1478,7 +1606,14 @@ class C12(Property):
                     last[r['op']] = r
                 finals = [one(last[i]) for i in sorted(last) if case['ops'][i][0] != 'm']
                 nops = sum(1 for op in case['ops'] if op[0] != 'm')
-                body += ' #%s/%s|%d' % (','.join(finals), obs['recs'][-1]['rbuf'] if obs['recs'] else '-', nops)
+                # what is still owed at the end: rbuf ++ undelivered (how it is split is free)
+                if not obs['recs']:
+                    owed = hx(b''.join(unhx(e) for e in case['script'] if not is_to(e)))
+                elif obs['recs'][-1]['rbuf'] == 'nonbytes':
+                    owed = 'nonbytes'
+                else:
+                    owed = hx(unhx(obs['recs'][-1]['rbuf']) + unhx(obs['recs'][-1]['und']))
+                body += ' #%s/%s|%d' % (','.join(finals), owed, nops)
             return body
         if k == 'tx':
             return '%s #%d' % (';'.join('%s/%s/%s' % (r['r'], r['sbuf'], r['wire']) for r in obs['recs']) or '-',
@@ -1491,7 +1626,7 @@ class C12(Property):
         if k == 'ns':
             return 'W:%s;%s;%s' % (','.join(obs['w']), obs['wire'], ','.join(obs['r']))
         if k == 'nsr':
-            return ','.join('%s/%s' % (r['r'], r['rbuf']) for r in obs['recs']) or '-'
+            return ','.join('%s/%s' % (r['r'], hx(unhx(r['rbuf']) + unhx(r['und']))) for r in obs['recs']) or '-'
         if k == 'duo':
             return '%s | %s' % (self.render(case['a'], obs['a']), self.render(case['b'], obs['b']))
         return '?'
